@@ -101,6 +101,13 @@ func (c *controller) SetBalancer(l log.Logger, name string, svcRo *v1.Service, _
 	}
 
 	if reflect.DeepEqual(svcRo, svc) {
+		if len(prevIPs) != 0 && !c.isServiceAllocated(name) && c.ips.PoolForIP(prevIPs) != nil {
+			// The object needs no write (e.g. it was deleted and re-created as a non-LoadBalancer
+			// service before we saw the deletion) but its allocation was released: another
+			// service may be waiting for what it held.
+			level.Info(l).Log("event", "serviceUpdated", "msg", "released the allocation of the service, services will be reprocessed")
+			syncStateRes = controllers.SyncStateReprocessAll
+		}
 		level.Debug(l).Log("event", "noChange", "msg", "service converged, no change")
 		return syncStateRes
 	}
